@@ -704,13 +704,21 @@ printf("debug> '%s' is a macro.  param_count=%d\n", token, param_count);
 #endif
       if (param_count == 0)
       {
-        macros_push_define(&asm_context->macros, macro);
+        if (macros_push_define(&asm_context->macros, macro) != 0)
+        {
+          asm_context->error_count++;
+          return TOKEN_EOF;
+        }
       }
         else
       {
         char *expanded = macros_expand_params(asm_context, macro, param_count);
         if (expanded == NULL) { return TOKEN_EOF; }
-        macros_push_define(&asm_context->macros, expanded);
+        if (macros_push_define(&asm_context->macros, expanded) != 0)
+        {
+          asm_context->error_count++;
+          return TOKEN_EOF;
+        }
       }
 
       asm_context->tokens.unget_stack[++asm_context->tokens.unget_stack_ptr] = asm_context->tokens.unget_ptr;
